@@ -253,7 +253,129 @@ fn check_input(cfg: &Cfg, env: &CliEnv, inp: &Input, n: usize, cpu: usize, ir_pr
     }
 }
 
+// ---------------------------------------------------------------------------------------------
+// In-process repetition: the same library pipeline the CLI runs (disassemble_binary with the saved P-Code, CFG,
+// function signatures, pointer inference, every check except CWE78) executed several times in THIS process.
+// Every `HashMap`/`HashSet` instance gets its own `RandomState`, so iteration orders differ between repetitions
+// just as they differ between processes - at a fraction of the cost of a process spawn, which buys many more inputs.
+
+fn shipped_config(lkm: bool) -> Option<Value> {
+    let path = if lkm { "/repo/src/lkm_config.json" } else { "/repo/src/config.json" };
+    serde_json::from_str(&std::fs::read_to_string(path).ok()?).ok()
+}
+
+/// One in-process analysis; returns the sorted warnings rendered as JSON text.
+fn inprocess_analyse(files: &InputFiles) -> Result<String, String> {
+    use cwe_checker_lib::analysis::graph;
+    use cwe_checker_lib::pipeline::{disassemble_binary, AnalysisResults};
+    use cwe_checker_lib::utils::debug;
+    let settings = debug::SettingsBuilder::default()
+        .set_verbosity(debug::Verbosity::Quiet)
+        .set_saved_pcode_raw(files.pcode.clone())
+        .build();
+    let (binary, project, _logs) = disassemble_binary(&files.elf, None, &settings).map_err(|e| format!("disassemble_binary: {e}"))?;
+    let lkm = project.runtime_memory_image.is_lkm;
+    let config = shipped_config(lkm).ok_or("cannot read the shipped configuration")?;
+    let mut modules = cwe_checker_lib::get_modules();
+    if lkm {
+        modules.retain(|m| cwe_checker_lib::checkers::MODULES_LKM.contains(&m.name));
+    } else {
+        modules.retain(|m| m.name != "CWE78");
+    }
+    let (cfg_graph, _l) = graph::get_program_cfg_with_logs(&project.program);
+    let ar = AnalysisResults::new(&binary, &cfg_graph, &project);
+    let (sigs, _l) = ar.compute_function_signatures();
+    let ar = ar.with_function_signatures(Some(&sigs));
+    let pi = ar.compute_pointer_inference(&config["Memory"], false);
+    let ar = ar.with_pointer_inference(Some(&pi));
+    let mut all = Vec::new();
+    for m in modules {
+        let (_logs, mut cwes) = (m.run)(&ar, &config[&m.name]);
+        all.append(&mut cwes);
+    }
+    all.sort();
+    serde_json::to_string(&all).map_err(|e| e.to_string())
+}
+
+fn inprocess_check(inp: &Input, reps: usize, rep: &mut Report) {
+    let files = match write_input(&inp.pcode, &inp.elf) {
+        Ok(f) => f,
+        Err(e) => {
+            rep.inconclusive(&format!("harness:{e}"));
+            return;
+        }
+    };
+    let mut first: Option<String> = None;
+    for k in 0..reps {
+        rep.eval();
+        match guard(|| inprocess_analyse(&files)) {
+            Ok(Ok(out)) => match &first {
+                None => first = Some(out),
+                Some(f) if *f != out => {
+                    let names = |s: &str| -> std::collections::BTreeSet<String> {
+                        serde_json::from_str::<Value>(s).ok().and_then(|v| v.as_array().cloned()).unwrap_or_default().iter().map(|w| w.to_string()).collect()
+                    };
+                    let (a, b) = (names(f), names(&out));
+                    let diff: Vec<String> = a.symmetric_difference(&b).map(|w| serde_json::from_str::<Value>(w).ok().and_then(|v| v["name"].as_str().map(|s| s.to_string())).unwrap_or_default()).collect();
+                    let mut kinds: Vec<String> = diff.clone();
+                    kinds.sort();
+                    kinds.dedup();
+                    let what = if kinds.is_empty() { "order".to_string() } else { kinds.join("+") };
+                    rep.violation(
+                        format!("inprocess:output-differs:{what}"),
+                        None,
+                        format!("repetition {k} of the in-process pipeline on the same input produced different warnings than repetition 0 (differing warnings: {diff:?})"),
+                        {
+                            let mut c = input_case(inp);
+                            c["mode"] = json!("inprocess");
+                            c
+                        },
+                        inp.pcode.len() as u64,
+                    );
+                    return;
+                }
+                _ => (),
+            },
+            Ok(Err(e)) => {
+                rep.inconclusive(&format!("inprocess:pipeline-error:{}", e.chars().take(40).collect::<String>()));
+                return;
+            }
+            Err(p) => {
+                // crashes are C21 material
+                rep.inconclusive(&format!("inprocess:panic:{}", panic_site(&p)));
+                return;
+            }
+        }
+    }
+    rep.obs("inprocess:inputs-compared");
+    if first.as_deref().map(|f| f.len() > 2).unwrap_or(false) {
+        rep.nontrivial(hash_str(&inp.pcode) ^ 0x1b9c);
+    }
+}
+
 fn run(cfg: &Cfg) -> Report {
+    let mut rep = run_cli_part(cfg);
+    // in-process part afterwards (cheap, bounded by its own wall-clock budget; skipped inputs are counted)
+    let ip_shards = cfg.tier.pick(32usize, 256usize);
+    let ip_per_shard = cfg.tier.pick(8usize, 24usize);
+    let ip_reps = cfg.tier.pick(5usize, 12usize);
+    let ip_budget = deadline_s(cfg) + cfg.tier.pick(12.0, 150.0);
+    let inproc = par_shards(cfg, "c23-inprocess", ip_shards, |_idx, rng, rep| {
+        for _ in 0..ip_per_shard {
+            if cfg.elapsed_s() > ip_budget {
+                rep.obs("inprocess:skipped-after-budget");
+                continue;
+            }
+            let opts = gen_opts(rng);
+            let inp = gen_input(rng, &opts);
+            inprocess_check(&inp, ip_reps, rep);
+        }
+    });
+    rep.merge(inproc);
+    rep
+}
+
+fn run_cli_part(cfg: &Cfg) -> Report {
     let env = match cli_env(cfg) {
         Ok(e) => e,
         Err(reason) => {
@@ -298,6 +420,13 @@ fn replay(cfg: &Cfg, case: &Value) -> Report {
             return rep;
         }
     };
+    if case["mode"] == json!("inprocess") {
+        if let Some((pcode, elf)) = input_from_case(case) {
+            let inp = Input { pcode, elf, kind: ElfKind::Exec, loops: 0, n_subs: 0, n_blocks: 0, max_blocks_per_sub: 0, expect: Default::default(), features: Default::default(), extern_names: Vec::new() };
+            inprocess_check(&inp, 40, &mut rep);
+        }
+        return rep;
+    }
     let Some((pcode, elf)) = input_from_case(case) else {
         rep.note("replay case has no input");
         return rep;
